@@ -28,11 +28,11 @@ let side s = (s = "1")
 let () =
   let cases = open_in Sys.argv.(1) in
   let st = ref a0 and dead = ref false and idx = ref 0 and label = ref "" in
-  let closing = ref false and late = ref l0 in
+  let closing = ref false and late = ref (late_init a0) in
   iter_lines cases (fun line ->
     let ev = match split_ws line with
-      | "B" :: l -> st := a0; dead := false; idx := 0; label := String.concat " " l; closing := false; late := l0; None
-      | ["X"; _] -> closing := true; None
+      | "B" :: l -> st := a0; dead := false; idx := 0; label := String.concat " " l; closing := false; late := late_init a0; None
+      | ["X"; _] -> closing := true; late := late_init !st; None
       | ["W"; s; h] -> Some (EW (side s, bytes_of_hex h))
       | ["A"; s; h] -> Some (EA (side s, bytes_of_hex h))
       | ["R"; s; k] -> Some (ER (side s, n_of_dec k))
@@ -48,7 +48,7 @@ let () =
       else if !closing then begin
         (match late_step !st !late e with
          | Some l -> late := l; print_endline "OK"
-         | None -> dead := true; Printf.printf "REJECT after-close:one-sequence-number-two-contents-or-bad-type at-event %d of %s\n" !idx !label);
+         | None -> dead := true; Printf.printf "REJECT after-close:two-contents-on-one-sequence-number-or-ack-ahead-or-bad-type at-event %d of %s\n" !idx !label);
         incr idx
       end
       else begin
